@@ -35,6 +35,23 @@ func (s *sourceReferenceCollector) addMatchPatternDeclaration(variable *cypher.V
 	}
 }
 
+// addPatternPropertyReferences records every variable read by the inline property map of a pattern element. Inside a
+// MATCH pattern declaration the generic variable case is suppressed so that declarations are not counted as reads, but
+// a property map value such as {objectid: id(n)} or {name: toLower(n.name)} reads other bindings all the same.
+func (s *sourceReferenceCollector) addPatternPropertyReferences(properties cypher.Expression) {
+	if properties == nil {
+		return
+	}
+
+	if references, err := collectReferencedSourceIdentifiers(properties); err != nil {
+		s.SetError(err)
+	} else {
+		for identifier := range references {
+			s.referencedIdentifiers[identifier] = struct{}{}
+		}
+	}
+}
+
 func (s *sourceReferenceCollector) collectRepeatedMatchPatternDeclarations() {
 	for identifier, numDeclarations := range s.matchPatternDeclarationRefs {
 		if numDeclarations > 1 {
@@ -68,6 +85,7 @@ func (s *sourceReferenceCollector) Enter(node cypher.SyntaxNode) {
 			s.addVariable(typedNode.Variable)
 		} else {
 			s.addMatchPatternDeclaration(typedNode.Variable)
+			s.addPatternPropertyReferences(typedNode.Properties)
 		}
 
 	case *cypher.RelationshipPattern:
@@ -75,6 +93,7 @@ func (s *sourceReferenceCollector) Enter(node cypher.SyntaxNode) {
 			s.addVariable(typedNode.Variable)
 		} else {
 			s.addMatchPatternDeclaration(typedNode.Variable)
+			s.addPatternPropertyReferences(typedNode.Properties)
 		}
 
 	case *cypher.PropertyLookup:
